@@ -65,6 +65,8 @@ struct rec {
 	/* allocator accounting (C14 enumeration) */
 	int nstep_alloc;			/* number of plan steps that were executed */
 	uint16_t nalloc[REC_NSTEP];	/* library-context allocations made during step j */
+	char crash_prop[8];	/* property a crash of this run would contradict ("" = the selected one) */
+	int af_fired;		/* an injected allocation failure has happened */
 	/* side channel for engines that report values to the driver */
 	char out[2048];
 };
